@@ -25,6 +25,7 @@
 (*    the neighbourhood search, FFFF tests of _flagDefine, getRanksActive,   *)
 (*    pair loops, ball-tree searches, ...).                                  *)
 (*  - C05 on the model:  Code(op, S) = Code(op, Reduce(S)) = Decl(op, S)      *)
+(*    = Code(op, Perturb(S)) (unusable samples moved elsewhere)               *)
 (*    (everything expressed in identities, which is what Expand does: row k  *)
 (*    of a result on Reduce(S) is row Keep(S)[k] of the result on S).         *)
 (*    Where TLC refutes it, the deviation must be listed in ModelDeviation    *)
@@ -83,7 +84,13 @@ ASSUME \A a, b \in Ids : a # b => \A k \in 0..NLag : 4 * D2SS(a, b) # Sq((2 * k 
 ASSUME \A a \in Ids : \A t \in Targets : D2ST(a, t) > 0
 ASSUME \A a, b \in Ids : a # b => 4 * D2SS(a, b) < Sq((2 * NLag + 1) * LagW)
 
-Status == [id : Ids, sel : SelDom, c : CDom, z : [Vars -> BOOLEAN], f : FDom, v : VDom]
+\* pert: the sample sits at its PERTURBED place (+1/2, +1/2) -- only in the copies built by Perturb below (the
+\* harness moves the unusable samples there in its perturbed Db)
+Status == [id : Ids, sel : SelDom, c : CDom, z : [Vars -> BOOLEAN], f : FDom, v : VDom, pert : {FALSE}]
+\* squared distance (x4) between a sample (status s) and target t
+DTv(a, pa, t) == IF pa THEN Sq(2 * SX[a] + 1 - 2 * TX[t]) + Sq(2 * SY[a] + 1 - 2 * TY[t]) ELSE 4 * D2ST(a, t)
+DT(s, t) == DTv(s.id, s.pert, t)
+ASSUME \A t \in Targets : \A a, b \in Ids : \A pa, pb \in BOOLEAN : a # b => DTv(a, pa, t) # DTv(b, pb, t)
 
 -----------------------------------------------------------------------------
 (* Helpers on sequences                                                     *)
@@ -98,7 +105,7 @@ Flatten(qq) == IF qq = <<>> THEN <<>> ELSE Head(qq) \o Flatten(Tail(qq))
 \* the positions of the set A (of positions of S) sorted by increasing distance to target t
 RECURSIVE SortByDist(_, _, _)
 SortByDist(S, A, t) == IF A = {} THEN <<>>
-                       ELSE LET m == CHOOSE i \in A : \A j \in A : D2ST(S[i].id, t) <= D2ST(S[j].id, t)
+                       ELSE LET m == CHOOSE i \in A : \A j \in A : DT(S[i], t) <= DT(S[j], t)
                             IN <<m>> \o SortByDist(S, A \ {m}, t)
 FirstK(q, k) == SubSeq(q, 1, IF Len(q) < k THEN Len(q) ELSE k)
 SortAsc(A) == IdxN(4, LAMBDA i : i \in A)
@@ -138,6 +145,9 @@ Keep(S, needs) == Idx(S, LAMBDA i : UsableSample(S[i], needs))
 \* stays an undefined value of the kept sample (heterotopic pattern preserved)
 Reduce(S, needs) == LET kp == Keep(S, needs) IN [k \in 1..Len(kp) |-> [S[kp[k]] EXCEPT !.sel = "none"]]
 
+\* the masked Db where the content of the unusable samples is changed (metamorphic form): they sit elsewhere
+Perturb(S, needs) == [i \in DOMAIN S |-> [S[i] EXCEPT !.pert = ~UsableSample(S[i], needs)]]
+
 \* data <<position, variable>> in variable-major order (the order of the kriging system and of
 \* the covariance / drift matrices)
 DataVM(S, P(_, _)) == Flatten([w \in Vars |-> LET q == Idx(S, LAMBDA i : P(i, w)) IN [k \in DOMAIN q |-> <<q[k], w>>]])
@@ -153,13 +163,9 @@ FlagDefine(S, nb) == Flatten([w \in Vars |->
                        LET q == IdxN(Len(nb), LAMBDA k : S[nb[k]].c /\ S[nb[k]].z[w] /\ (HasF => S[nb[k]].f))
                        IN [k \in DOMAIN q |-> <<nb[q[k]], w>>]])
 
-\* cross-validation in unique neighbourhood (_estimateCalculXvalidUnique): the row of a sample in the inverse
-\* of the (compressed) kriging matrix is computed by _getFlagAddress = rank among the active isotopic samples,
-\* whereas the matrix was compressed with the flags of _flagDefine: any difference mis-addresses the rows
-XvAddressed(S) == Idx(S, LAMBDA i : IsActive(S[i]) /\ \A w \in Vars : S[i].z[w])
-XvCompressed(S, nb) == LET q == IdxN(Len(nb), LAMBDA k : S[nb[k]].c /\ S[nb[k]].z[1] /\ (HasF => S[nb[k]].f))
-                       IN [k \in DOMAIN q |-> nb[q[k]]]
-BadMark == <<<<0, 1>>>>
+\* cross-validation in unique neighbourhood (_estimateCalculXvalidUnique): the row of a sample in the inverse of the
+\* compressed kriging matrix is its rank among the flags of _flagDefine (_getFlagAddress, repaired in the library):
+\* the data used are those of FlagDefine
 
 \* NeighUnique::_unique
 NbUnique(S) == Idx(S, LAMBDA i : IsActive(S[i]) /\ NotAllUndef(S[i]))
@@ -171,10 +177,10 @@ NbMoving(S, t) == SortAsc(Range(FirstK(SortByDist(S, NbMovingCand(S), t), NMaxi)
 \* nearest ones are the candidates, and the isActive test is skipped on that path; a sample with an
 \* undefined coordinate is at distance 1e30: it is returned only when fewer than NMaxi others exist,
 \* and then rejected by the radius
-\* (KNN::_query refuses a query for more neighbours than the tree holds points: no candidate at all)
+\* (the query asks for MIN(NMaxi, number of rows) neighbours since the repair of the query size)
 BallKnn(S, t) == LET def == {i \in DOMAIN S : S[i].c}
                      und == {i \in DOMAIN S : ~S[i].c}
-                 IN IF Len(S) < NMaxi THEN <<>> ELSE FirstK(SortByDist(S, def, t) \o SortAsc(und), NMaxi)
+                 IN FirstK(SortByDist(S, def, t) \o SortAsc(und), NMaxi)
 NbMovingBall(S, t) == SortAsc({i \in Range(BallKnn(S, t)) : NotAllUndef(S[i]) /\ S[i].c})
 
 \* declared neighbourhoods
@@ -201,9 +207,10 @@ SwOf(S, pairs) == [k \in 1..NLag |-> Cardinality({p \in pairs : Lag(S[p[1]].id, 
 \* value is defined (Vario::_getStatistics / _centerCovariance), whatever its coordinates
 CenteringData(S) == DataVM(S, LAMBDA i, w : IsActive(S[i]) /\ S[i].z[w])
 
-\* migrate point -> point (CalcMigrate::_expandPointToPoint): nearest ACTIVE sample, whatever its value;
+\* migrate point -> point (CalcMigrate::_expandPointToPoint): nearest active sample whose value is defined
+\* (the test of the value was added by a repair; an undefined coordinate gives a distance of 1e30 = never nearest)
 NearestOf(S, A, t) == IF A = {} THEN 0 ELSE SortByDist(S, A, t)[1]
-MigrateSrc(S, t)     == NearestOf(S, {i \in DOMAIN S : IsActive(S[i]) /\ S[i].c}, t)
+MigrateSrc(S, t)     == NearestOf(S, {i \in DOMAIN S : IsActive(S[i]) /\ S[i].c /\ S[i].z[1]}, t)
 \* with flag_ball (_expandPointToPointBall, after the repair of the selection): nearest sample of a tree holding
 \* the samples of getRanksActive(); the value is not tested, and a sample with an undefined coordinate is in the
 \* tree at distance 1e30: it wins when no sample has coordinates
@@ -218,28 +225,15 @@ DeclMigrateSrc(S, t) == NearestOf(S, {i \in DOMAIN S : UsableDatum(S[i], 1, {"c"
 \* convention -- centred or not -- used to locate a point): the values written are those of these samples
 MigrateGrid(S)     == Idx(S, LAMBDA i : IsActive(S[i]) /\ S[i].c /\ S[i].z[1])
 DeclMigrateGrid(S) == Idx(S, LAMBDA i : UsableDatum(S[i], 1, {"c"}))
-\* ... with filling (expandPointToGrid): nearest usable sample of every node.  The code ranks the COMPRESSED list of
-\* the active samples with a defined value, then uses these ranks as row numbers of the Db (coordinates and value
-\* are read at row rank): right only when the compressed list is the list of the first rows
+\* ... with filling (expandPointToGrid): nearest sample of every node among the active samples with a defined value
+\* and defined coordinates (rows kept next to the ranked coordinates since the repair)
 NearestToNode(S, A, g) == IF A = {} THEN 0 ELSE CHOOSE i \in A : \A j \in A : D2SG(S[i].id, g) <= D2SG(S[j].id, g)
-\* (the work array is dimensioned with getSampleNumber(true) and ranked as a whole; with no active sample the
-\* empty rank array is read at index 0)
-FillList(S) == Idx(S, LAMBDA i : IsActive(S[i]) /\ S[i].z[1])
-MigrateFill(S) == IF /\ FillList(S) = [k \in 1..Len(FillList(S)) |-> k] /\ \A k \in DOMAIN FillList(S) : S[k].c
-                     /\ Len(FillList(S)) = Cardinality({i \in DOMAIN S : CountedActive(S[i])}) /\ FillList(S) # <<>>
-                  THEN [g \in Nodes |-> NearestToNode(S, Range(FillList(S)), g)]
-                  ELSE [g \in Nodes |-> -1]
+MigrateFill(S) == [g \in Nodes |-> NearestToNode(S, {i \in DOMAIN S : IsActive(S[i]) /\ S[i].z[1] /\ S[i].c}, g)]
 DeclMigrateFill(S) == [g \in Nodes |-> NearestToNode(S, {i \in DOMAIN S : UsableDatum(S[i], 1, {"c"})}, g)]
 
-\* conditional turning bands: the bands are sized on the samples that have coordinates (_minmax, repaired), but
-\* the non-conditional simulation AT THE DATA (_simulatePoint on the input Db, driven by getActiveArray = isActive)
-\* still evaluates every active sample through its coordinates: with 1.234e30 the position-indexed band processes
-\* (TurningBandOperate::shotNoiseAffineOne / shotNoiseCubicOne, spherical and cubic structures) index their array
-\* at (int)(1e30): the run is lost.  With the other structures (simtub_exp: exponential) a value is simulated at
-\* that sample, and KrigingSystem::_simulateCalcul then pairs the kriging weights (compressed by _flagDefine,
-\* which dropped the sample) with every neighbour whose simulated error is defined (which includes it): all the
-\* following weights are shifted by one datum.  Either way the result is not that of the usable data (FailMark)
-SimDataPointUndefined(S) == \E i \in DOMAIN S : IsActive(S[i]) /\ ~S[i].c
+\* conditional turning bands: bands sized on, and simulated at, the active samples that have coordinates (_minmax,
+\* _simulatePoint), kriging of the simulated errors with the flags of _flagDefine (_simulateCalcul) -- all three
+\* repaired in the library: the conditioning data are those of FlagDefine on the unique neighbourhood
 
 \* row-level readers of the selection: Db::createReduce (rows of getRanksActive() without variable),
 \* getSampleNumber(true), getColumn(useSel = true, compressed) (cell exactly 1), getRanksActive, getActiveArray
@@ -307,12 +301,10 @@ DeclOf(op, S) ==
     [] op = "migrate_fill" -> DeclMigrateFill(S)
     [] op = "reduce" -> DeclRows(S)
 
-FailMark == <<<<0, 0>>>>
 CodeOf(op, S) ==
   CASE op = "krig_u" -> FlagDefine(S, NbUnique(S))
-    [] op = "xvalid_u" -> IF NVar = 1 /\ XvAddressed(S) # XvCompressed(S, NbUnique(S)) THEN BadMark
-                          ELSE FlagDefine(S, NbUnique(S))
-    [] op \in {"simtub", "simtub_pt", "simtub_exp"} -> IF SimDataPointUndefined(S) THEN FailMark ELSE FlagDefine(S, NbUnique(S))
+    [] op = "xvalid_u" -> FlagDefine(S, NbUnique(S))
+    [] op \in {"simtub", "simtub_pt", "simtub_exp"} -> FlagDefine(S, NbUnique(S))
     [] op \in {"krig_m", "xvalid_m"} -> [t \in Targets |-> FlagDefine(S, NbMoving(S, t))]
     [] op = "krig_mb" -> [t \in Targets |-> FlagDefine(S, NbMovingBall(S, t))]
     [] op = "neigh_u" -> NbUnique(S)
@@ -347,7 +339,8 @@ ToId(op, S, x) ==
 Spec_(op, S)      == ToId(op, S, DeclOf(op, S))                       \* what C05 promises
 OnMasked(op, S)   == ToId(op, S, CodeOf(op, S))                       \* what the code does on the masked Db
 OnReduced(op, S)  == LET R == Reduce(S, NeedsOf(op)) IN ToId(op, R, CodeOf(op, R))   \* ... on the reduced Db
-Agrees(op, S)     == OnMasked(op, S) = Spec_(op, S) /\ OnReduced(op, S) = Spec_(op, S)
+OnPerturbed(op, S) == LET P == Perturb(S, NeedsOf(op)) IN ToId(op, P, CodeOf(op, P))   \* ... on the perturbed Db
+Agrees(op, S)     == OnMasked(op, S) = Spec_(op, S) /\ OnReduced(op, S) = Spec_(op, S) /\ OnPerturbed(op, S) = Spec_(op, S)
 \* Reduce itself is sound: on a reduced Db the declared data are those declared on the masked one
 ReduceSound(op, S) == LET R == Reduce(S, NeedsOf(op)) IN ToId(op, R, DeclOf(op, R)) = Spec_(op, S)
 
@@ -393,32 +386,19 @@ ModelDeviation(op, S) ==
   \/ op \in {"krig_mb", "neigh_mb"} /\ (ft.sel_off \/ ft.zall_na)
        \* D1 ball tree built on all samples (useSel = false) and isActive skipped on that path: masked samples
        \*    enter the neighbourhood; samples without value take NMaxi slots of the k-nearest query
-  \/ op \in {"krig_mb", "neigh_mb"} /\ (Len(S) < NMaxi \/ Len(Keep(S, NeedsOf(op))) < NMaxi)
-       \* D1b the k-nearest query fails (empty neighbourhood) when the Db holds fewer than NMaxi rows: the reduced
-       \*    Db and the masked Db differ by their number of rows
   \/ op = "migrate_ball" /\ (ft.zall_na \/ ft.hetero \/ ft.coord_na)
-       \* D2 CalcMigrate::_expandPointToPointBall: like D3 the nearest sample wins even when its value is undefined,
-       \*    and a sample without coordinates is a candidate (the selection part has been repaired in the library)
-  \/ op = "migrate" /\ (ft.zall_na \/ ft.hetero)
-       \* D3 the nearest active sample wins even when its value is undefined (point -> grid skips those)
+       \* D2 CalcMigrate::_expandPointToPointBall: the nearest sample wins even when its value is undefined, and a
+       \*    sample without coordinates is a candidate (the selection part has been repaired in the library)
   \/ op \in {"cov", "cov_sym", "drift"} /\ ft.coord_na
        \* D4 getRanksActive tests selection, value and Verr, not the coordinates: rows computed from 1.234e30
   \/ op = "drift" /\ ft.f_na
        \* D5 ... nor the external drift: the drift matrix holds 1.234e30
-  \/ op \in {"simtub", "simtub_pt", "simtub_exp"} /\ ft.coord_na
-       \* D6 the simulation at the data points evaluates the active samples without coordinates (out-of-range index
-       \*    in the band arrays), and _simulateCalcul pairs the weights with the data by "error defined" instead of
-       \*    the flags of _flagDefine; the sizing of the bands through such samples has been repaired in the library
   \/ op \in {"krig_m", "krig_mb", "xvalid_m"} /\ ft.f_na
        \* D7 samples that _flagDefine drops later (undefined external drift) still fill the NMaxi slots
-  \/ op = "xvalid_u" /\ (ft.coord_na \/ ft.f_na)
-       \* D9 unique-neighbourhood cross-validation addresses the inverse matrix by the rank among active isotopic
-       \*    samples although _flagDefine also removed the samples without coordinates / external drift
-  \/ op = "migrate_fill" /\ (ft.sel_off \/ ft.zall_na \/ ft.hetero \/ ft.coord_na)
-       \* D10 expandPointToGrid uses ranks of the compressed list of usable samples as row numbers of the Db
   \/ op = "vario_cov" /\ ft.coord_na
        \* D11 the experimental covariance is centred with a mean that includes the samples without coordinates
-       \* (D8, conditional simulation on point targets reading the target coordinates in the input Db, has been
-       \*  repaired in the library and removed from the transcription)
+       \* (repaired in the library and removed from the transcription: D1b k-nearest query larger than the tree,
+       \*  D3 point-to-point migration copying an undefined value, D6 conditional simulation with samples without
+       \*  coordinates, D8 point targets read in the input Db, D9 cross-validation rows, D10 expandPointToGrid ranks)
 
 =============================================================================
